@@ -626,7 +626,9 @@ attrsLoop:
 							if p.srcRewriter != nil {
 								parsedURL, err := url.Parse(u)
 								if err != nil {
-									fmt.Println(err)
+									// There is no URL to hand to the
+									// rewriter, so the attribute is dropped
+									break
 								}
 								p.srcRewriter(parsedURL)
 								u = parsedURL.String()
